@@ -157,9 +157,29 @@ impl Rig {
     }
 }
 
+thread_local! {
+    static MODEL_ONLY: std::cell::Cell<bool> = const { std::cell::Cell::new(false) };
+}
+/// Under Miri the register-level transports cannot run (their MMIO addresses are fabricated and only the
+/// bus backend interprets them, but the library still does in-bounds pointer arithmetic on them): map
+/// every transport kind to the model transport with the same observable behaviour class.
+pub fn set_model_only(on: bool) {
+    MODEL_ONLY.with(|c| c.set(on));
+}
+
 /// Build a device of the given type on the given transport.  `config` is the device-specific
 /// configuration space.  Resets the MMIO bus (one device at a time per thread).
 pub fn build(kind: TKind, device_type: DeviceType, offered: u64, config: Vec<u8>) -> (Rig, AnyT) {
+    let kind = if MODEL_ONLY.with(|c| c.get()) {
+        match kind {
+            TKind::MmioLegacy => TKind::ModelLegacy,
+            TKind::Pci | TKind::SomePci => TKind::ModelNoUnset,
+            TKind::MmioModern | TKind::SomeMmio => TKind::Model,
+            k => k,
+        }
+    } else {
+        kind
+    };
     mmio_bus::reset();
     let st = ModelState::new(device_type, offered);
     st.borrow_mut().config = config;
